@@ -146,7 +146,7 @@ def params_of(f, skip=('graph',), env_types=None):
         bs.append(f'({P.esc(pn)} : {P.lean_type(pt)})'); xs.append(P.esc(pn))
     return ' '.join(bs), ' '.join(xs)
 
-def coherence_module(tr, ns, opens, imports, fns_in_order, envtype, path):
+def coherence_module(tr, ns, opens, imports, fns_in_order, envtype, path, fns):
     txt = HEADER.format(tr=tr, path=path, imports='\n'.join(imports), ns=ns, opens=opens)
     txt += ('/-! Coherence of the two emission modes, one statement per emitted function: forgetting the heap of the\n'
             'exception gives the first-mode function.  `st_coh` (MalVerif/Py/StLib.lean) walks the two `do` blocks in step. -/\n\n')
@@ -154,7 +154,8 @@ def coherence_module(tr, ns, opens, imports, fns_in_order, envtype, path):
         bs, xs = params_of(f)
         bs = bs.replace('ENVTYPE', envtype)
         txt += f'theorem {f.lean}_coh {bs} :\n    erase ({f.lean}{SUFFIX} {xs}) = {f.lean} {xs} := by\n'
-        txt += f'  unfold {f.lean}{SUFFIX} {f.lean}\n  st_coh\n\n'
+        used = ', '.join(f'{c}_coh' for c in sorted(f.calls) if is_st(fns[c]))        # the mutators it calls
+        txt += f'  unfold {f.lean}{SUFFIX} {f.lean}\n  st_coh [{used}]\n\n'
     txt += f'end {ns}\n'
     return txt
 
@@ -187,7 +188,7 @@ def generate(repo, modules=None) -> dict[str, str]:
         if not modules or 'Coh' in modules:
             out['Coh'] = coherence_module('py2lean_st.py', GEN_NS, 'MalVerif.Py MalVerif.Py.Gen MalVerif.PySt',
                                           ['import MalVerif.Py.StLib'] + [f'import {GEN_NS}.{m}' for m in want],
-                                          emitted, 'EvalEnv', 'the modules of MalVerif/Py/GenSt')
+                                          emitted, 'EvalEnv', 'the modules of MalVerif/Py/GenSt', fns)
         return out
     finally:
         P.Tr = saved
